@@ -118,6 +118,11 @@ def enum_cases(tier, oracles, bound=1):
     stmts.append([('expr', ('bin', '<', EP, ('f', 'q')))])
     stmts.append([('expr', ('bin', '==', EP, ('f', 'q')))])
     stmts.append([('expr', ('in', EP, [('elit', -2), ('elit', 5)]))])
+    # every non-empty subset of the enumerators, in both listing orders, alone and next to a relation
+    for sub in ([-2], [1], [5], [-2, 1], [1, 5], [5, -2], [1, -2], [5, 1], [-2, 1, 5], [5, 1, -2]):
+        stmts.append([('expr', ('in', EP, [('elit', v) for v in sub]))])
+        stmts.append([('expr', ('in', EP, [('elit', v) for v in sub])), ('expr', ('bin', '!=', EP, ('f', 'x')))])
+        stmts.append([('expr', ('in', EP, [('elit', v) for v in sub])), ('expr', ('bin', '<=', EP, ('elit', 1)))])
     stmts.append([('expr', ('notin', EP, [('elit', 1)]))])
     stmts.append([('expr', ('bin', '>', EP, ('lit', 1)))])
     stmts.append([('expr', ('bin', '==', EP, ('lit', 3)))])       # not an enumerator: unsat
